@@ -49,7 +49,9 @@ pub fn relative_files(in_path: &Path) -> Result<Vec<OsString>, String> {
         return Ok(vec![in_file_name.to_os_string()]);
     }
 
-    let pattern_path = in_path.to_owned().join("**").join("*.mamba");
+    // The directory itself is not a pattern: escape glob metacharacters in it.
+    let escaped_in_path = glob::Pattern::escape(in_path.to_string_lossy().as_ref());
+    let pattern_path = Path::new(&escaped_in_path).join("**").join("*.mamba");
     let pattern = pattern_path.as_os_str().to_string_lossy();
     let glob =
         glob(pattern.as_ref()).map_err(|e| format!("Unable to recursively find files: {e}"))?;
